@@ -195,6 +195,7 @@ func edits() []Op {
 		tog("edge:top->leaf", func(v *Vars) { v.Edge = !v.Edge }),
 		tog("target:pkg:other", func(v *Vars) { v.Other = !v.Other }),
 		tog("target:pkg:co:lon", func(v *Vars) { v.Colon = !v.Colon }),
+		tog("broken:pkg/BUILD.dawn (duplicate target half-way)", func(v *Vars) { v.Broken = !v.Broken }),
 		tog("target:pkg:other_all", func(v *Vars) { v.OtherAll = !v.OtherAll }),
 		tog("fail:gen", func(v *Vars) { v.Fail[0] = !v.Fail[0] }),
 		tog("fail:mid", func(v *Vars) { v.Fail[1] = !v.Fail[1] }),
@@ -340,6 +341,9 @@ func alphabet(prop string, thorough bool) []Op {
 		// pass (C18 second pass, C05)
 		// an injected record-write fault hits whichever targets happen to be saving at that moment:
 		// it belongs to the protocol check only (C18), whose oracle does not depend on who was hit
+		if strings.HasPrefix(o.Name, "broken:") && prop != "C14" {
+			continue // build files that do not load: C14 (what a failed load leaves for a later collection)
+		}
 		if (strings.HasPrefix(o.Name, "interrupt:") || strings.Contains(o.Name, "(process started in")) && prop != "C01" {
 			continue // interrupted builds: C01 here, every crash point in C03
 		}
@@ -386,7 +390,7 @@ func alphabet(prop string, thorough bool) []Op {
 			return pick(all...)
 		}
 		return pick("edit:src/a.txt", "addremove:dir/w.txt", "target:pkg:other", "target:pkg:co:lon", "target:pkg:other_all", "edge:top->leaf", "stray-files", "delete:gen/g.txt",
-			"build:top", "build:leaf", "build:colon", "gc:full", "gc:index", "build:top+gc(one load)", "build:leaf+gc(one load)", "session:build:top,+pkg:other,reload,build:other")
+			"build:top", "build:leaf", "build:colon", "gc:full", "gc:index", "build:top+gc(one load)", "build:leaf+gc(one load)", "session:build:top,+pkg:other,reload,build:other", "broken:pkg/BUILD.dawn (duplicate target half-way)")
 	case "C18":
 		if thorough {
 			return pick(all...)
@@ -499,7 +503,7 @@ func (x *searcher) step(s *State, op Op) []*State {
 	o := *op.Build
 	if o.Session != nil {
 		// one long-lived Project: build top, //pkg:other appears, reload, build it
-		if s.V.Other {
+		if s.V.Other || s.V.Broken {
 			return nil
 		}
 		v2 := s.V
@@ -521,6 +525,21 @@ func (x *searcher) step(s *State, op Op) []*State {
 	}
 	o.SnapLoad = o.Dry || o.GC
 	res := x.runBuild(s, o)
+	if s.V.Broken && (!o.PreferIndex || res.LoadErr != nil) {
+		// the build files cannot be loaded: the operation fails and leaves whatever it leaves
+		// (an index-preferred operation that finds a usable index does not read them)
+		if res.LoadErr == nil {
+			x.violation("load-succeeded-on-broken-build-file", "Load succeeded although pkg/BUILD.dawn declares a target twice", s, n.Hist, res)
+			return nil
+		}
+		for p, c := range s.V.render() {
+			if res.After[p] != c {
+				x.violation("source-modified", "a failed load modified source file "+p, s, n.Hist, res)
+			}
+		}
+		n.Art = artOf(res.After)
+		return []*State{n}
+	}
 	if res.LoadErr != nil {
 		x.violation("load-failed", "Load failed: "+es(res.LoadErr), s, n.Hist, res)
 		return nil
